@@ -38,8 +38,21 @@ Proof.
 Qed.
 Print Assumptions C19_ns_cache_key_concurrent_refuted.
 
+(* second refutation: build_recursive stops at a class another thread has cached (C14's defect d) *)
+Theorem C19_build_recursive_concurrent_refuted :
+  exists w st progs sched i,
+    nth_error (conc_run w st progs sched) i <> nth_error (map (solo_run w st) progs) i
+    /\ forallb (ref_rec_closed w (eff_index w st)) progs = false.
+Proof.
+  exists W, s0, [rec_dep; serialize W vDep], [1; 1; 1]%nat, 0%nat. destruct rec_race as [H [_ G]].
+  split; [|assumption]. cbn [map nth_error]. exact H.
+Qed.
+Print Assumptions C19_build_recursive_concurrent_refuted.
+
 (* The guarded theorem.  conc_guard w st progs (computable, Model/Sched.v) =
-     world_ok w && cache_known w (s_cache st)
+     world_ok w && cache_known w (s_cache st) && unsup_ok w st
+     && forallb (ref_rec_closed w (eff_index w st)) progs
+                                 no build_recursive of any thread meets an unbuildable class below its argument
      && consistent (s_cache st ++ requests of all threads)
    every class is requested — by any thread, or earlier — under parent namespaces that
    give one and the same metadata.  Nothing is assumed about the index: the context may
@@ -76,9 +89,10 @@ Print Assumptions C19_former_race_schedule_harmless.
 Theorem C19_guard_nonvacuous :
   conc_guard W s0 good_threads = true /\ conc_guard W warm1 good_threads = true
   /\ conc_guard W stale1 [ftPA; parsePA; ftPA] = true
-  /\ conc_guard W s0 untyped_threads = true.
+  /\ conc_guard W s0 untyped_threads = true
+  /\ conc_guard W s0 [recPA; serialize W vPA; recPA; parsePA] = true.
 Proof.
   split; [exact conc_guard_cold|]. split; [exact conc_guard_warm|]. destruct conc_guard_stale.
-  split; [assumption|exact conc_guard_untyped].
+  split; [assumption|]. split; [exact conc_guard_untyped|exact conc_guard_rec].
 Qed.
 Print Assumptions C19_guard_nonvacuous.
